@@ -79,6 +79,8 @@ def _classify_projection_return(model, c, fn, defs, p, par):
     # A: re-wrap
     if f"type({par})(" in t:
         return "A", "re-applies type(parent)(...)"
+    if isinstance(v, ast.Call) and isinstance(v.func, ast.Attribute) and v.func.attr == "substitute" and isinstance(v.func.value, ast.Name) and v.func.value.id == par and v.args and isinstance(v.args[0], ast.Name) and v.args[0].id == "self":
+        return "A", "keeps the parent and replaces self inside it (parent.substitute(self, ...))"
     if isinstance(v, ast.Subscript) and _derives_from_parent_columns(defs, v.slice, par):
         return "A", "re-applies the parent's selection by getitem"
     if isinstance(v, ast.Call) and dotted(v.func) in ("Projection",) and len(v.args) >= 2 and _derives_from_parent_columns(defs, v.args[1], par):
